@@ -50,6 +50,45 @@ def stream(ctx, n, so, to, tts, extra, aged):
     ctx.sample(dict(stream=s.label, first_lines=s.lines[:8]))
 
 
+def autoref_copy_stream(ctx, n, so, to, tts):
+    """copies between two dd.autoref managers through `BDD.copy` (the method) and the
+    module-level `copy_bdd` (the runner alternates): each copy is a Function of the target
+    that denotes the same function of the names and holds one reference"""
+    from .C12 import abuild, by_name
+    s = ctx.session(f'autoref copy n={n} src={so} tgt={to}')
+    s.op('a0', 'new', {v: l for v, l in zip(range(n), so)})
+    s.op('a1', 'new', {v: l for v, l in zip(range(n), to)})
+    H = s.impl.handles
+    a1 = s.impl.amgr['a1']
+    case = lambda: dict(stream=s.label, lines=list(s.lines))  # noqa: E731
+    got = []
+    for t in tts:
+        f = abuild(s, 'a0', t, n)
+        if ctx.rng.random() < 0.5:
+            g = s.op('a0', 'fapply', 'not', f, None)
+            f, t = g, T.neg(t, n)
+        h = s.op('a1', 'copy', 0, f)
+        ctx.case(('autoref-copy', n, so, to, t), t not in (0, T.full(n)))
+        ctx.count('autoref-copy')
+        if h is None:
+            ctx.violation('C11:rejected', 'autoref copy rejected a valid Function', case)
+            continue
+        got.append(h)
+        if by_name(a1._bdd, H['a1'][h].node, n) != t:
+            ctx.violation('C11:wrong-function', f'autoref copy of {t:#x} denotes another function', case)
+    ext = {1: 1}
+    for u in [abs(f.node) for f in H['a1'].values()]:
+        ext[u] = ext.get(u, 0) + 1
+    bad = oracle.check_table(a1._bdd, external=ext)
+    if bad:
+        ctx.violation('C11:target-table', f'autoref target: {bad[:3]}', case)
+    for h in got:
+        s.op('a1', 'drop', h)
+    s.op('a1', 'gc')
+    if set(a1._bdd._succ) != {1}:
+        ctx.violation('C11:target-table', 'nodes survive after every copy was dropped', case)
+
+
 def missing_stream(ctx, n, so, tts):
     """the target does NOT declare one of the source's variables (and declares a foreign one,
     so that every level number of the source exists in the target): a function that depends
@@ -210,6 +249,10 @@ def run(ctx):
         for so in gen.orders(n):
             for to in gen.orders(n):
                 stream(ctx, n, so, to, range(1 << (1 << n)), 0, False)
+    for _ in range(6 if q else 60):
+        n_ = rng.choice([3, 4])
+        autoref_copy_stream(ctx, n_, rng.choice(gen.orders(n_)), rng.choice(gen.orders(n_)),
+                            [rng.getrandbits(1 << n_) for _ in range(4)])
     for _ in range(6 if q else 60):
         n_ = rng.choice([3, 4])
         missing_stream(ctx, n_, rng.choice(gen.orders(n_)), [rng.getrandbits(1 << n_) for _ in range(6)])
